@@ -17,19 +17,27 @@ VARIABLE l
 Missing == [k |-> "MISSING"]
 ObservedUri(gs) == IF Len(gs) >= 1 /\ N_puri \in DOMAIN gs[1].attrs THEN gs[1].attrs[N_puri] ELSE Missing
 Positive(id) == id[1] * 65536 + id[2] >= 1 /\ id[1] < 32768          \* a positive request-id (1 .. 2^31-1)
+NoLastCall(calls) == \A i \in 1..Len(calls) : calls[i].c # "last"
+DropLast(gs) == [i \in 1..Len(gs) |-> IF gs[i].tag = 1
+                                       THEN [tag |-> 1, attrs |-> [n \in (DOMAIN gs[i].attrs) \ {N_last} |-> gs[i].attrs[n]]]
+                                       ELSE gs[i]]
 OpOK(e) ==
   LET uriV == ObservedUri(e.req.groups)
       exp  == Build(e.op, e.calls, e.jobid, uriV) IN
   /\ e.req.hdr.ver = exp.ver /\ e.req.hdr.code = exp.code /\ Positive(e.req.hdr.id)
-  /\ ReqNorm(e.req.groups) = ReqNorm(exp.groups)
-  /\ (HasUri(e.op) => (uriV.k = "Uri" /\ IsCanonOf(e.puri, e.target)))
+  /\ IF e.op = "SendDocument" /\ NoLastCall(e.calls)
+     THEN \* "the last flag as last-document": without a call to last() only the syntax is fixed, not a default
+          /\ ReqNorm(DropLast(e.req.groups)) = ReqNorm(DropLast(exp.groups))
+          /\ Len(e.req.groups) >= 1 /\ N_last \in DOMAIN e.req.groups[1].attrs /\ e.req.groups[1].attrs[N_last].k = "Boolean"
+     ELSE ReqNorm(e.req.groups) = ReqNorm(exp.groups)
+  /\ (HasUri(e.op) => (uriV.k = "Uri" /\ IsCanonOfN(e.puri, e.target)))
   /\ e.payload_ok
 RawOK(e) ==
   LET uriV == ObservedUri(e.req.groups) IN
   /\ e.req.hdr.ver = e.ver /\ e.req.hdr.code = e.code
   /\ (IF e.kind = "response" THEN e.req.hdr.id = e.id ELSE Positive(e.req.hdr.id))
   /\ ReqNorm(e.req.groups) = ReqNorm(Base(e.hasuri, uriV))
-  /\ (e.hasuri => (uriV.k = "Uri" /\ IsCanonOf(e.puri, e.target)))
+  /\ (e.hasuri => (uriV.k = "Uri" /\ IsCanonOfN(e.puri, e.target)))
   /\ e.payload_ok
 OrderOK(e) == HeaderOrderOK(e.first, e.names)
 Step(e) == CASE e.ev = "op" -> OpOK(e) [] e.ev = "raw" -> RawOK(e) [] e.ev = "order" -> OrderOK(e) [] OTHER -> FALSE
